@@ -74,6 +74,16 @@ impl<K> PendingIntents<K> {
     }
 }
 
+#[cfg(feature = "verif-hooks")]
+impl<K> PendingIntents<K> {
+    /// (hash, protection count), sorted by hash
+    pub(crate) fn protected_snapshot(&self) -> Vec<(BlobHash, usize)> {
+        let mut v: Vec<_> = self.protected.iter().map(|(h, c)| (*h, *c)).collect();
+        v.sort();
+        v
+    }
+}
+
 /// A read-only view of the index state.
 /// Holds a shared read lock for the duration of the guard.
 /// Supports lookup, iteration, and range queries in key order.
@@ -275,6 +285,8 @@ where
     K: Clone + Eq + Ord + std::hash::Hash,
 {
     fn drop(&mut self) {
+        #[cfg(feature = "verif-hooks")]
+        crate::verif::point("guard_drop.before_intents");
         let mut intents = self.index.pending_intents.lock();
 
         // Committed or not, this commit no longer needs its blob to be protected: either the
@@ -343,7 +355,11 @@ where
     pub fn checkpoint(&self, reason: CheckpointReason) -> Result<(), IndexError> {
         tracing::info!(?reason, "Starting checkpoint operation.");
 
+        #[cfg(feature = "verif-hooks")]
+        crate::verif::point("checkpoint.before_state");
         let mut snapshot = self.state.write();
+        #[cfg(feature = "verif-hooks")]
+        crate::verif::point("checkpoint.before_wal");
         let mut wal_guard = self.wal.lock();
 
         self.checkpoint_inner(reason, &mut wal_guard, &mut *snapshot)
@@ -382,10 +398,16 @@ where
         delete_fn: &crate::types::DeleteBlobCallFn,
     ) -> Result<(), IndexError> {
         let logical_op = WalOp::Put { key: key.clone(), hash, size };
+        #[cfg(feature = "verif-hooks")]
+        crate::verif::point("apply.before_intents");
         let mut intents = self.pending_intents.lock();
 
         let (mut unreferenced_from_op, rolled_over) = {
+            #[cfg(feature = "verif-hooks")]
+            crate::verif::point("apply.before_state");
             let mut state = self.state.write();
+            #[cfg(feature = "verif-hooks")]
+            crate::verif::point("apply.before_wal");
             let mut wal = self.wal.lock();
             let (hashes, _append_info, rolled) =
                 Self::apply_wal_op_unsafe(&mut state, &mut wal, &logical_op)?;
@@ -403,9 +425,15 @@ where
         }
 
         drop(intents);
+        #[cfg(feature = "verif-hooks")]
+        crate::verif::point("apply.after_intents_unlock");
 
         if rolled_over {
+            #[cfg(feature = "verif-hooks")]
+            crate::verif::point("checkpoint.before_state");
             let mut state = self.state.write();
+            #[cfg(feature = "verif-hooks")]
+            crate::verif::point("checkpoint.before_wal");
             let mut wal = self.wal.lock();
             self.checkpoint_inner(CheckpointReason::SegmentRollover, &mut wal, &mut state)?;
         }
@@ -419,10 +447,16 @@ where
         delete_fn: &crate::types::DeleteBlobCallFn,
     ) -> Result<(), IndexError> {
         let logical_op = WalOp::Remove { keys };
+        #[cfg(feature = "verif-hooks")]
+        crate::verif::point("apply.before_intents");
         let intents = self.pending_intents.lock();
 
         let (mut unreferenced_from_op, rolled_over) = {
+            #[cfg(feature = "verif-hooks")]
+            crate::verif::point("apply.before_state");
             let mut state = self.state.write();
+            #[cfg(feature = "verif-hooks")]
+            crate::verif::point("apply.before_wal");
             let mut wal = self.wal.lock();
             let (hashes, _append_info, rolled) =
                 Self::apply_wal_op_unsafe(&mut state, &mut wal, &logical_op)?;
@@ -438,9 +472,15 @@ where
         }
 
         drop(intents);
+        #[cfg(feature = "verif-hooks")]
+        crate::verif::point("apply.after_intents_unlock");
 
         if rolled_over {
+            #[cfg(feature = "verif-hooks")]
+            crate::verif::point("checkpoint.before_state");
             let mut state = self.state.write();
+            #[cfg(feature = "verif-hooks")]
+            crate::verif::point("checkpoint.before_wal");
             let mut wal = self.wal.lock();
             self.checkpoint_inner(CheckpointReason::SegmentRollover, &mut wal, &mut state)?;
         }
